@@ -139,8 +139,8 @@ theorem fallback_pop_stores_in_entry (o : Ops) (s : MSt) (key : Str) (pieces : L
                               depths := (e.depths.filter (·.1 != key)) ++ [(key, s.depth)] } :: es ∧
     (pop o s key).stack = rest ∧ (pop o s key).feed = s.feed := by
   unfold pop
-  simp only [hst, bne_self_eq_false, Bool.false_eq_true, ↓reduceIte, Bool.not_true, hrel, Bool.false_and, hk, hin, hent, hfirst,
-    Option.map_none]
+  simp only [hst, bne_self_eq_false, Bool.false_eq_true, ↓reduceIte, Bool.not_true, hrel, Bool.false_and, hk, hin, hent, updHead,
+    writeEntry, hfirst, Option.map_none]
   refine ⟨?_, ?_, ?_⟩ <;> first | rfl | trivial
 
 /-- **Text value under the canonical key (feed context)** -/
@@ -162,11 +162,9 @@ theorem fallback_attrs_stored (s : MSt) (key : Str) (attrsD : List (Str × Str))
     (∀ e es, s.inentry = true → s.entries = e :: es →
       (setContext s key (.d attrsD)).entries = { e with d := fset e.d key (.d attrsD) } :: es) := by
   refine ⟨?_, ?_, ?_⟩
-  · unfold setContext; split
-    · split <;> rfl
-    · rfl
+  · unfold setContext; split <;> rfl
   · intro h; simp [setContext, h]
-  · intro e es h he; simp [setContext, h, he]
+  · intro e es h he; simp [setContext, h, he, updHead]
 
 /-- character data is accumulated piecewise on the innermost open text-collecting element and
 joined only when it closes -/
